@@ -698,6 +698,8 @@ func run(c *hx.Ctx) {
 			// every fifth history (all six regimes in turn): blocks chain transactions inside themselves and
 			// sibling branches re-mine the transactions of the other branch, as after a real reorg
 			cs.Opts.Chained, cs.Opts.Remine = 2, 1+int(cs.Seed%3)
+			// ... and v1 revisions that shorten the proof window (the stock kinds only extend it)
+			cs.Opts.Kinds = append(append([]string(nil), chaingen.TxKinds...), "v1-revise-shrink", "v1-revise-shrink", "v1-form")
 			if cs.Opts.TxPerBlock == 0 {
 				cs.Opts.TxPerBlock = 2
 			}
@@ -832,6 +834,12 @@ func countDims(t *chaingen.Tree, cs mgrsim.Case, obs []mgrsim.Obs) (keys []strin
 		}
 		if n.Height > depth {
 			depth = n.Height
+		}
+		for _, k := range n.Kinds {
+			if k == "v1-revise-shrink" {
+				add("blocks-carrying-a-v1-revision-that-shortens-the-window")
+				break
+			}
 		}
 		if len(n.Block.Transactions) > 0 && len(n.Block.V2Transactions()) > 0 {
 			add("blocks-mixing-v1-and-v2-transactions")
@@ -1024,6 +1032,16 @@ func corpus() []mgrsim.Case {
 					out = append(out, mgrsim.Case{Seed: uint64(1000 + 100*regime + 10*si + ki + 5*remine), Regime: regime, Plan: plans[si],
 						Opts: chaingen.GenOpts{Shape: shapes[si], TxPerBlock: 2, Kinds: ks, Remine: remine}})
 				}
+			}
+		}
+	}
+	// a v1 revision that shortens the proof window is reverted by a reorg (and the chain runs past both the old
+	// and the revised window end)
+	for regime := 0; regime < 2; regime++ {
+		for si := range shapes {
+			for v := 0; v < 2; v++ {
+				out = append(out, mgrsim.Case{Seed: uint64(2000 + 100*regime + 10*si + v), Regime: regime, Plan: plans[si],
+					Opts: chaingen.GenOpts{Shape: shapes[si], TxPerBlock: 3, Kinds: []string{"v1-form", "v1-revise-shrink", "v1-revise-shrink"}}})
 			}
 		}
 	}
